@@ -241,6 +241,8 @@ def configs(tier, seed):
         out.append(('prox/%s' % name, dict(kind='derived', factory=name)))
     for cid, rn, sk in funcs.instances(tier):
         out.append(('fprox/' + cid, dict(kind='fprox', recipe=rn, sk=sk)))
+        if tier == 'thorough' and sk in ('rn', 'arn', 'discr', 'pspace') and funcs.supports_dim(rn, sk, 3):
+            out.append(('fprox/%s/n=3' % cid, dict(kind='fprox', recipe=rn, sk=sk, n=3)))
     for r in reg.RECIPES:
         if r.name.split('/')[0] in INPLACE_CLASSES:
             out.append(('op/' + r.name, dict(kind='op', recipe=r.name)))
@@ -276,7 +278,7 @@ def aliased_equals_fresh(ctx, tag, op, x):
     ctx.eq('aliased=fresh/' + tag, y, r0)
 
 
-def case(ctx, kind, factory=None, sk=None, g=False, sigma='scalar', recipe=None):
+def case(ctx, kind, factory=None, sk=None, g=False, sigma='scalar', recipe=None, n=None):
     if kind == 'sites':
         sites = solver_alias_call_sites()
         ctx.fact('found-aliased-call-sites', len(sites) > 0)
@@ -304,7 +306,7 @@ def case(ctx, kind, factory=None, sk=None, g=False, sigma='scalar', recipe=None)
         aliased_equals_fresh(ctx, '', op, x)
         return
     if kind == 'fprox':
-        r, f = funcs.build(ctx, recipe, sk)
+        r, f = funcs.build(ctx, recipe, sk, n=n)
         try:
             op = f.proximal(ctx.real('sigma', pos=True))
         except (NotImplementedError, ValueError):
